@@ -116,7 +116,9 @@ def base_scenario(seed, index, ex="asyncio"):
                                                           "consume": "all"})]})
     scn = {"seed": seed, "exec": ex, "sched": "fifo", "pool": pool, "net": net,
            "callers": callers, "ctype": ctype, "company": company,
-           "epilogue": ["settle", "observe", "probe", "close_pool"]}
+           "epilogue": ["settle", "observe", "probe", "close_pool"],
+           "probe_reuse": [f"{scheme}://a.test/t/reuse0"]
+           + ([f"{scheme}://b.test/t/reuse1"] if company in ("queued", "behind") else [])}
     if ex == "threads":
         scn.pop("sched")
         scn["policy"] = {"mode": "ops", "op_p": 0.5}
@@ -196,6 +198,19 @@ def c05_oracle(res, scn):
         return
     if obs["stuck"]:
         w.violate("C05", pre + "|residue=stuck:" + state_word(obs["stuck"][0]), obs)
+        return
+    ru = getattr(w, "reuse_result", None)
+    if ru and any(x != 200 for x in ru):
+        bad = next(x for x in ru if x != 200)
+        msgs = getattr(w, "reuse_msgs", [])
+        if bad == "LocalProtocolError" and any("Max outbound streams" in m for m in msgs):
+            # one root cause whatever the trigger: the abandoned stream was never reset,
+            # h2 still counts it while httpcore has released its slot
+            w.violate("C05", "h2-abandoned-stream-keeps-slot:pooled-connection-unusable",
+                      {"reuse": ru, "msgs": msgs, "trigger": pre, **obs})
+            return
+        w.violate("C05", pre + "|residue=pooled-connection-unusable:" + str(bad),
+                  {"reuse": ru, "msgs": msgs, **obs})
         return
     pr = getattr(w, "probe_result", None)
     if pr is not None and any(x != 200 for x in pr):
